@@ -919,3 +919,115 @@ def fmt_bytes(vals, limit=6) -> str:
     vals = list(vals)
     s = ", ".join(repr(v) for v in vals[:limit])
     return s + (f", ... ({len(vals)} in all)" if len(vals) > limit else "")
+
+
+# ---- rule kinds: domain arguments checked on the code, abstention of structural rules -------------------------------------
+
+def kinded(rule: str, exhaustive: bool) -> str:
+    """Name under which an evaluated rule reports: the plain name when the domain argument that makes the enumeration complete
+    was established on the code (kind finite-exhaustive), else the name + " (bounded)" (declared kind bounded)."""
+    return rule if exhaustive else rule + " (bounded)"
+
+
+class Abstain(AnalysisError):
+    """A structural rule does not recognise the shape it is written for."""
+
+
+@contextlib.contextmanager
+def structural(ctx, group: str, covered_by: str):
+    """Run a group of structural rules; when the shape is not recognised the group abstains with a note naming the evaluated
+    rule(s) that still cover the clause (never a violation, never an error)."""
+    try:
+        yield
+    except AnalysisError as e:
+        ctx.note(f"{group}: shape not recognised ({e}); clause left to {covered_by}")
+
+
+def _atomic_tests(func):
+    out = []
+
+    def split(e):
+        if isinstance(e, ast.BoolOp):
+            for v in e.values:
+                split(v)
+        elif isinstance(e, ast.UnaryOp) and isinstance(e.op, ast.Not):
+            split(e.operand)
+        else:
+            out.append(e)
+    for n in walk_local(func):
+        if isinstance(n, (ast.If, ast.While, ast.IfExp, ast.Assert)):
+            split(n.test)
+        elif isinstance(n, ast.comprehension):
+            for c in n.ifs:
+                split(c)
+    return out
+
+
+def _local_names(func):
+    names = {a.arg for a in func.args.args} if hasattr(func, "args") else set()
+    for n in walk_local(func):
+        if isinstance(n, ast.Name) and isinstance(n.ctx, ast.Store):
+            names.add(n.id)
+    return names
+
+
+_PURE_CALLS = {"len", "ord", "chr", "isinstance", "iterbytes", "bytes", "str", "int", "hasattr", "type", "nativeString", "networkString", "_matchingString", "enumerate", "iter", "next",
+               "set", "frozenset", "map", "range", "tuple", "list", "dict", "sorted", "min", "max", "bytearray", "memoryview"}
+
+
+def domain_argument(funcs: Sequence[ast.AST], inputs: Iterable[str], state: Iterable[str] = (), helpers: Iterable[str] = ()) -> Tuple[bool, str]:
+    """Structural premise of an exhaustive enumeration: in the given functions every branch decision reads only the input unit(s),
+    the declared state variables, values derived from them, and non-local constants (module constants, literals), through
+    comparisons / membership / truthiness and whitelisted pure calls.  Then the behaviour depends only on (the class of the input
+    w.r.t. the constants it is compared with) x (the state), and one representative per class x every state is a complete domain.
+    Returns (holds, reason)."""
+    inputs, state, helpers = set(inputs), set(state), set(helpers)
+    for f in funcs:
+        local = _local_names(f)
+        derived = set(inputs) | set(state)
+        changed = True
+        while changed:                       # locals computed purely from inputs / state / constants are as good as inputs
+            changed = False
+            for st in walk_local(f):
+                tgt = None
+                if isinstance(st, ast.Assign) and len(st.targets) == 1:
+                    tgt, val = st.targets[0], st.value
+                elif isinstance(st, (ast.For, ast.comprehension)):
+                    tgt, val = st.target, st.iter
+                if tgt is None:
+                    continue
+                tnames = {n.id for n in ast.walk(tgt) if isinstance(n, ast.Name)}
+                reads = {n.id for n in ast.walk(val) if isinstance(n, ast.Name) and isinstance(n.ctx, ast.Load)}
+                if tnames and not tnames <= derived and all(r in derived or r not in local for r in reads):
+                    if all(isinstance(c.func, ast.Name) and (c.func.id in _PURE_CALLS or c.func.id in helpers) or isinstance(c.func, ast.Attribute)
+                           for c in ast.walk(val) if isinstance(c, ast.Call)):
+                        derived |= tnames
+                        changed = True
+        for t in _atomic_tests(f):
+            reads = {n.id for n in ast.walk(t) if isinstance(n, ast.Name) and isinstance(n.ctx, ast.Load)}
+            bad = [r for r in reads if r in local and r not in derived]
+            if bad:
+                return False, f"in {getattr(f, 'name', '?')} the test `{src(t)[:60]}` depends on `{bad[0]}`, which is neither the input unit nor declared state"
+            for c in ast.walk(t):
+                if isinstance(c, ast.Call):
+                    nm = dotted(c.func) or ""
+                    if isinstance(c.func, ast.Name) and nm not in _PURE_CALLS and nm not in helpers:
+                        return False, f"in {getattr(f, 'name', '?')} the test `{src(t)[:60]}` calls `{nm}`"
+    return True, "every branch decision reads only the input unit, the declared state and constants"
+
+
+def reads_param_unitwise(funcs: Sequence[ast.AST], param: str) -> Tuple[bool, str]:
+    """The sequence parameter is consumed unit by unit: it is only iterated (directly or through iterbytes/iter), measured with
+    len(), or converted with bytes(); it is never indexed, sliced, searched or passed on whole to other code."""
+    f = funcs[0]
+    for n in walk_local(f):
+        if isinstance(n, ast.Name) and n.id == param and isinstance(n.ctx, ast.Load):
+            p = getattr(n, "_parent", None)
+            ok = False
+            if isinstance(p, (ast.For, ast.comprehension)) and p.iter is n:
+                ok = True
+            elif isinstance(p, ast.Call) and isinstance(p.func, ast.Name) and p.func.id in ("len", "iterbytes", "iter", "bytes", "bytearray", "memoryview") and n in p.args:
+                ok = True
+            if not ok:
+                return False, f"`{param}` is used as `{src(p)[:60]}`, not only iterated / measured"
+    return True, f"`{param}` is only iterated unit by unit and measured"
